@@ -76,6 +76,8 @@ class C10(Prop):
                     seen.add(a)
                     uniq.append(pr)
             cli["m"] = uniq
+        if R.chance(20):
+            cli["d"] = R.choice(["", "INFO", "DEBUG", "DEBUG", "WARNING"])
         return {"prop": "C10", "conns": conns, "tap": gen.gen_tap(R.fork("tap")), "cli": cli, "unlisted": unl}
 
     def quic_available(self):
